@@ -47,6 +47,8 @@ pub enum Ev {
     Reset,
     SetLen(Option<u64>),
     Finish,
+    /// abandon(): finished with the position left where it is
+    Abandon,
 }
 
 #[derive(Debug, Clone, Serialize, Deserialize)]
@@ -64,6 +66,12 @@ struct Track {
     /// virtual ns of the last reset-like event (creation, reset*, rewind)
     reset_t: i64,
     distinct_rates: Vec<f64>,
+    /// largest rate of any forward step since creation (never cleared)
+    whole_max: f64,
+    /// no reset_elapsed / reset / backwards seek / finish() so far: the position was reached by forward
+    /// steps since creation only
+    forward_only: bool,
+    abandoned: bool,
 }
 
 /// All point-wise laws at the current (frozen) instant.
@@ -94,6 +102,16 @@ fn check_point(pb: &ProgressBar, tr: &Track, ctx: &str) -> Result<(), Fail> {
         ensure!(dur == want_dur, "duration", "{ctx}: duration() = {dur:?}, elapsed + eta = {want_dur:?}");
     } else {
         ensure!(eta == Duration::ZERO, "eta", "{ctx}: eta() = {eta:?} for a finished bar");
+        if tr.abandoned && tr.forward_only {
+            // abandoned where it stood after forward steps only: whatever rate is reported, it lies
+            // between zero and the largest rate observed
+            ensure!(
+                ps <= tr.whole_max * (1.0 + 1e-9) + f64::MIN_POSITIVE,
+                "upper_bound_abandoned",
+                "{ctx}: per_sec() = {ps} of the abandoned bar (position {pos}, length {len:?}, elapsed {el:?}) exceeds the largest rate ever observed ({})",
+                tr.whole_max
+            );
+        }
     }
     Ok(())
 }
@@ -104,6 +122,7 @@ fn apply(pb: &ProgressBar, ev: &Ev, tr: &mut Track, pos: &mut u64) {
         if new > tr.last_pos && now > tr.last_t {
             let rate = (new - tr.last_pos) as f64 / ((now - tr.last_t) as f64 / 1e9);
             tr.max_rate = tr.max_rate.max(rate);
+            tr.whole_max = tr.whole_max.max(rate);
             if !tr.distinct_rates.iter().any(|r| (r - rate).abs() <= 1e-9 * rate) {
                 tr.distinct_rates.push(rate);
             }
@@ -111,6 +130,7 @@ fn apply(pb: &ProgressBar, ev: &Ev, tr: &mut Track, pos: &mut u64) {
             tr.last_t = now;
         } else if new < tr.last_pos {
             // backwards seek: everything before is ignored
+            tr.forward_only = false;
             tr.last_pos = new;
             tr.last_t = now;
             tr.reset_t = now;
@@ -143,6 +163,7 @@ fn apply(pb: &ProgressBar, ev: &Ev, tr: &mut Track, pos: &mut u64) {
             pb.tick();
             forward(*pos, tr);
             pb.reset_elapsed();
+            tr.forward_only = false;
             tr.last_t = now;
             tr.reset_t = now;
             tr.max_rate = 0.0;
@@ -150,6 +171,8 @@ fn apply(pb: &ProgressBar, ev: &Ev, tr: &mut Track, pos: &mut u64) {
         }
         Ev::Reset => {
             pb.reset();
+            tr.forward_only = false;
+            tr.abandoned = false;
             *pos = 0;
             tr.last_pos = 0;
             tr.last_t = now;
@@ -161,14 +184,21 @@ fn apply(pb: &ProgressBar, ev: &Ev, tr: &mut Track, pos: &mut u64) {
             Some(l) => pb.set_length(*l),
             None => pb.unset_length(),
         },
-        Ev::Finish => pb.finish(),
+        Ev::Finish => {
+            pb.finish();
+            tr.forward_only = false;
+        }
+        Ev::Abandon => {
+            pb.abandon();
+            tr.abandoned = true;
+        }
     }
 }
 
 fn run_laws(c: &LawCase) -> CaseResult {
     let _clk = clock::Armed::new();
     let pb = ProgressBar::with_draw_target(c.len, ProgressDrawTarget::hidden());
-    let mut tr = Track { last_pos: 0, last_t: clock::now_ns(), max_rate: 0.0, reset_t: clock::now_ns(), distinct_rates: vec![] };
+    let mut tr = Track { last_pos: 0, last_t: clock::now_ns(), max_rate: 0.0, reset_t: clock::now_ns(), distinct_rates: vec![], whole_max: 0.0, forward_only: true, abandoned: false };
     let mut pos = 0u64;
     let mut v = Verdict::default();
     let mut updates = 0;
@@ -185,7 +215,7 @@ fn run_laws(c: &LawCase) -> CaseResult {
                 gaps.push(*gap);
             }
         }
-        if matches!(ev, Ev::Finish) {
+        if matches!(ev, Ev::Finish | Ev::Abandon) {
             finished = true;
         }
         if matches!(ev, Ev::Reset) {
@@ -224,6 +254,7 @@ fn run_laws(c: &LawCase) -> CaseResult {
     v.label_if(!c.stall.is_empty() && !finished, "stall_queried");
     v.label_if(!steady, "rate_changed");
     v.label_if(finished, "finished");
+    v.label_if(tr.abandoned && tr.forward_only && updates > 0, "abandoned_after_forward_steps_only");
     Ok(v)
 }
 
@@ -248,6 +279,7 @@ fn ev_strategy() -> BoxedStrategy<Ev> {
         1 => Just(Ev::Reset),
         1 => proptest::option::weighted(0.8, prop_oneof![0u64..10_000, any::<u64>()]).prop_map(Ev::SetLen),
         1 => Just(Ev::Finish),
+        1 => Just(Ev::Abandon),
     ]
     .boxed()
 }
